@@ -378,35 +378,46 @@ type boxInit struct {
 func (st *State) mkEntity(t *entTable, b *entBuilder, row *Term) *Term {
 	h := st.heap
 	ent := st.allocRef()
-	blocks := 0
-	var boxes []*Term
-	st.pendingBoxes = nil
-	inits := st.entityFieldInits(h, t, &blocks, func(block int, e *Term) *Term {
-		for len(boxes) <= block {
-			boxes = append(boxes, st.allocRef())
+	base := st.ptrAddr(ent, t.Named)
+	for _, c := range t.Cols {
+		col := st.colGet(h, t, c.Name, row)
+		null := st.colNull(h, t, c.Name, row)
+		fa := st.fieldAddr(base, c.FieldIdx)
+		vt := c.GoType
+		if c.Ptr {
+			vt = vt.Underlying().(*types.Pointer).Elem()
 		}
-		return boxes[block]
-	})
-	tk := "F|" + typeKey(t.Named)
-	for _, fi := range inits {
-		key := tk + "|" + fi.path
-		arr := st.heapGet(st.heap, key, ArrS(SInt, fi.sort), fi.isRef)
-		st.heapSet(key, Store(arr, ent, fi.val(ent, row)))
-	}
-	for _, bi := range st.pendingBoxes {
-		for len(boxes) <= bi.block {
-			boxes = append(boxes, st.allocRef())
+		switch {
+		case c.Slice != nil && !c.Ptr:
+			ln := Ite(null, IntLit(0), st.blobLen(col))
+			st.store(fa, &SliceV{Base: Ite(null, IntLit(0), col), Off: IntLit(0), Len: ln, Cap: ln, Elem: c.Slice})
+		case c.Ptr:
+			box := st.allocRef()
+			st.store(st.ptrAddr(box, vt), st.colToGo(c, vt, col))
+			st.store(fa, Ite(null, IntLit(0), box))
+		default:
+			if c.Nullable && c.Sort == SInt {
+				st.store(fa, Ite(null, IntLit(0), col))
+			} else {
+				st.store(fa, col)
+			}
 		}
-		arr := st.heapGet(st.heap, bi.key, ArrS(SInt, bi.sort), false)
-		st.heapSet(bi.key, Store(arr, boxes[bi.block], bi.val(row)))
 	}
-	st.pendingBoxes = nil
 	// edges
 	st.clearEdges(t, ent)
 	for _, w := range b.With {
 		st.loadEdgeOne(t, ent, row, w)
 	}
 	return ent
+}
+
+// colToGo converts a column value to the Go value of type vt.
+func (st *State) colToGo(c *entCol, vt types.Type, col *Term) SVal {
+	if sl, ok := vt.Underlying().(*types.Slice); ok {
+		ln := st.blobLen(col)
+		return &SliceV{Base: col, Off: IntLit(0), Len: ln, Cap: ln, Elem: sl.Elem()}
+	}
+	return col
 }
 
 func (st *State) clearEdges(t *entTable, ent *Term) {
